@@ -5,8 +5,10 @@
 (* held for the next execution:  unset / long data (chunk tags in arrival order) / bound    *)
 (* (a value tag taken from an execute packet).  One action per client command:              *)
 (* COM_STMT_PREPARE, COM_STMT_SEND_LONG_DATA, COM_STMT_EXECUTE (well formed, truncated      *)
-(* inside the value of parameter k, truncated inside the type array, unknown handle),       *)
-(* COM_STMT_RESET, COM_STMT_CLOSE.                                                          *)
+(* inside the value of parameter k, truncated inside the type array, unknown handle; with   *)
+(* the parameter types sent (new-params-bound = 1) or re-used from the previous execution   *)
+(* (new-params-bound = 0); succeeding or failing at the backend), COM_STMT_RESET,           *)
+(* COM_STMT_CLOSE.                                                                          *)
 (*                                                                                          *)
 (* Values are tags, not bytes: the inline value of parameter q in the n-th command of the   *)
 (* behaviour is the tag <<n, q>>, the chunk sent by the n-th command is the tag n.  The      *)
@@ -16,15 +18,18 @@
 (* inline value from the packet for every parameter that holds nothing); the properties     *)
 (* are stated on the HISTORY only (what the client sent), so they constrain that algorithm. *)
 (* KeepOnFailure = TRUE is the variant "a failed execute does not clear the statement"       *)
-(* (what proxy/server/executor_stmt.go does: ResetParams is deferred only after a           *)
-(* successful bind); TLC refutes UsedMatchesHistory for it, which yields the candidate      *)
-(* command sequences.  Expectations for conformance come from KeepOnFailure = FALSE.        *)
+(* (what proxy/server/executor_stmt.go did before fix 02f5719: ResetParams was deferred     *)
+(* only after a successful bind); TLC refutes UsedMatchesHistory for it, which shows that   *)
+(* the property is not vacuous.  Expectations for conformance come from                     *)
+(* KeepOnFailure = FALSE, which is also what the repaired code does.                        *)
 EXTENDS Naturals, Sequences, FiniteSets, TLC
 
 CONSTANTS MaxPrep,        \* number of handles that can be allocated (handle = ordinal of its PREPARE)
           NP,             \* parameters per statement
           MaxLen,         \* commands per behaviour
           MaxBad,         \* at most this many commands addressed to a handle that is not open
+          MaxFault,       \* at most this many executions that fail at the backend
+          AllowReuse,     \* TRUE: execute packets without types (new-params-bound = 0) are generated
           KeepOnFailure   \* FALSE: the specification; TRUE: the defective algorithm
 
 Handles == 1..MaxPrep
@@ -33,8 +38,9 @@ Params  == 1..NP
 VARIABLES nprep,   \* handles allocated so far
           open,    \* open handles
           par,     \* par[h][p]: what handle h holds for parameter p
+          typed,   \* handles whose parameter types the server knows from a previous execution
           hist     \* the commands so far, each with its outcome
-vars == <<nprep, open, par, hist>>
+vars == <<nprep, open, par, typed, hist>>
 
 Unset     == [k |-> "unset"]
 Long(cs)  == [k |-> "long", chunks |-> cs]
@@ -49,10 +55,12 @@ ULong(cs) == [k |-> "long", chunks |-> cs]
 Init == /\ nprep = 0
         /\ open = {}
         /\ par = [h \in Handles |-> AllUnset]
+        /\ typed = {}
         /\ hist = <<>>
 
 N == Len(hist) + 1     \* index of the command being issued
 NBad == Cardinality({i \in 1..Len(hist) : hist[i].res \in {"unknown"}})
+NFault == Cardinality({i \in 1..Len(hist) : hist[i].res = "backend-error"})
 
 -----------------------------------------------------------------------------------
 (* What a conforming client puts into an execute packet for handle h: no inline value for a *)
@@ -91,57 +99,70 @@ Prepare ==
     /\ open' = open \cup {nprep + 1}
     /\ par' = [par EXCEPT ![nprep + 1] = AllUnset]
     /\ hist' = Append(hist, [c |-> "prepare", h |-> nprep + 1, res |-> "ok"])
+    /\ UNCHANGED typed
 
 SendLongData(h, p) ==
     IF h \in open
     THEN /\ par' = [par EXCEPT ![h][p] = IF @.k = "long" THEN Long(Append(@.chunks, N)) ELSE Long(<<N>>)]
          /\ hist' = Append(hist, [c |-> "long", h |-> h, p |-> p, tag |-> N, res |-> "ok"])
-         /\ UNCHANGED <<nprep, open>>
+         /\ UNCHANGED <<nprep, open, typed>>
     ELSE /\ NBad < MaxBad
          /\ hist' = Append(hist, [c |-> "long", h |-> h, p |-> p, tag |-> N, res |-> "unknown"])
-         /\ UNCHANGED <<nprep, open, par>>
+         /\ UNCHANGED <<nprep, open, par, typed>>
 
 (* mal: 0 = well formed, p \in Params = truncated inside the value of p, NP+1 = truncated   *)
-(* inside the type array (nothing can be bound)                                             *)
-Execute(h, pk, mal) ==
+(* inside the type array (nothing can be bound).                                            *)
+(* ty: "sent" = the packet carries the parameter types (new-params-bound = 1); "reused" =   *)
+(* it does not (new-params-bound = 0), which a client may do once an execution of this      *)
+(* handle that carried the types has been processed.                                        *)
+(* fault: the statement reaches the backend and fails there (duplicate key, lock wait ...). *)
+Execute(h, pk, mal, ty, fault) ==
     IF h \notin open
     THEN /\ NBad < MaxBad
-         /\ mal = 0
-         /\ hist' = Append(hist, [c |-> "exec", h |-> h, pk |-> pk, mal |-> mal, res |-> "unknown", used |-> <<>>])
-         /\ UNCHANGED <<nprep, open, par>>
+         /\ mal = 0 /\ ty = "sent" /\ ~fault
+         /\ hist' = Append(hist, [c |-> "exec", h |-> h, pk |-> pk, mal |-> mal, ty |-> ty, fault |-> fault,
+                                  res |-> "unknown", used |-> <<>>])
+         /\ UNCHANGED <<nprep, open, par, typed>>
     ELSE /\ mal \in Params => pk[mal] = "val"
+         /\ ty = "reused" => (AllowReuse /\ h \in typed /\ mal # NP + 1)
+         /\ fault => (mal = 0 /\ NFault < MaxFault)
          /\ LET inl == InlineFrom(pk, N, 1, mal)
                 b   == IF mal = NP + 1 THEN [ok |-> FALSE, args |-> par[h]] ELSE Bind(par[h], pk, inl, 1, 1)
             IN IF b.ok
-               THEN /\ par' = [par EXCEPT ![h] = AllUnset]
-                    /\ hist' = Append(hist, [c |-> "exec", h |-> h, pk |-> pk, mal |-> mal, res |-> "ok",
+               THEN /\ par' = [par EXCEPT ![h] = IF fault /\ KeepOnFailure THEN b.args ELSE AllUnset]
+                    /\ typed' = typed \cup {h}
+                    /\ hist' = Append(hist, [c |-> "exec", h |-> h, pk |-> pk, mal |-> mal, ty |-> ty, fault |-> fault,
+                                             res |-> IF fault THEN "backend-error" ELSE "ok",
                                              used |-> [p \in Params |-> UsedOf(b.args[p])]])
                ELSE /\ par' = [par EXCEPT ![h] = IF KeepOnFailure THEN b.args ELSE AllUnset]
-                    /\ hist' = Append(hist, [c |-> "exec", h |-> h, pk |-> pk, mal |-> mal, res |-> "malformed",
-                                             used |-> <<>>])
+                    /\ typed' = IF ty = "sent" THEN typed \ {h} ELSE typed   \* the client re-sends the types after a refused packet
+                    /\ hist' = Append(hist, [c |-> "exec", h |-> h, pk |-> pk, mal |-> mal, ty |-> ty, fault |-> fault,
+                                             res |-> "malformed", used |-> <<>>])
          /\ UNCHANGED <<nprep, open>>
 
 Reset(h) ==
     IF h \in open
     THEN /\ par' = [par EXCEPT ![h] = AllUnset]
          /\ hist' = Append(hist, [c |-> "reset", h |-> h, res |-> "ok"])
-         /\ UNCHANGED <<nprep, open>>
+         /\ UNCHANGED <<nprep, open, typed>>
     ELSE /\ NBad < MaxBad
          /\ hist' = Append(hist, [c |-> "reset", h |-> h, res |-> "unknown"])
-         /\ UNCHANGED <<nprep, open, par>>
+         /\ UNCHANGED <<nprep, open, par, typed>>
 
 (* COM_STMT_CLOSE has no reply; closing an unknown handle is not observable and not generated *)
 Close(h) ==
     /\ h \in open
     /\ open' = open \ {h}
     /\ par' = [par EXCEPT ![h] = AllUnset]
+    /\ typed' = typed \ {h}
     /\ hist' = Append(hist, [c |-> "close", h |-> h, res |-> "ok"])
     /\ UNCHANGED nprep
 
 Next == /\ Len(hist) < MaxLen
         /\ \/ Prepare
            \/ \E h \in Handles, p \in Params : SendLongData(h, p)
-           \/ \E h \in Handles : \E pk \in Shapes(h) : \E mal \in 0..(NP + 1) : Execute(h, pk, mal)
+           \/ \E h \in Handles : \E pk \in Shapes(h) : \E mal \in 0..(NP + 1) :
+                  \E ty \in {"sent", "reused"} : \E fault \in BOOLEAN : Execute(h, pk, mal, ty, fault)
            \/ \E h \in Handles : Reset(h)
            \/ \E h \in Handles : Close(h)
 
@@ -157,7 +178,7 @@ IsOpenAt(hs, h) ==      \* after the commands hs, is handle h open?
 Clears(e, h) == /\ e.h = h
                 /\ \/ e.c = "prepare"
                    \/ e.c = "reset" /\ e.res = "ok"
-                   \/ e.c = "exec" /\ e.res \in {"ok", "malformed"}
+                   \/ e.c = "exec" /\ e.res \in {"ok", "malformed", "backend-error"}
 
 LastClear(hs, h) == LET S == {i \in 1..Len(hs) : Clears(hs[i], h)}
                     IN IF S = {} THEN 0 ELSE CHOOSE i \in S : \A j \in S : j <= i
@@ -172,6 +193,7 @@ TypeOK ==
     /\ nprep \in 0..MaxPrep
     /\ open \subseteq 1..nprep
     /\ \A h \in Handles, p \in Params : par[h][p].k \in {"unset", "long", "bound"}
+    /\ typed \subseteq open
     /\ Len(hist) <= MaxLen
 
 (* each execution uses exactly: the long data sent for it since the previous execution or   *)
@@ -179,7 +201,7 @@ TypeOK ==
 UsedMatchesHistory ==
     \A n \in 1..Len(hist) :
         LET e == hist[n] IN
-        (e.c = "exec" /\ e.res = "ok") =>
+        (e.c = "exec" /\ e.res \in {"ok", "backend-error"}) =>
             \A p \in Params :
                 LET ls == LongSince(SubSeq(hist, 1, n - 1), e.h, p) IN
                 e.used[p] = IF ls # <<>> THEN ULong(ls)
@@ -190,7 +212,7 @@ UsedMatchesHistory ==
 Isolated ==
     \A n \in 1..Len(hist) :
         LET e == hist[n] IN
-        (e.c = "exec" /\ e.res = "ok") =>
+        (e.c = "exec" /\ e.res \in {"ok", "backend-error"}) =>
             \A p \in Params :
                 /\ e.used[p].k = "val" => e.used[p].tag[1] = n
                 /\ e.used[p].k = "long" =>
@@ -208,11 +230,13 @@ UnknownFails ==
 MalformedFails ==
     \A n \in 1..Len(hist) :
         LET e == hist[n] IN
-        (e.c = "exec" /\ e.res # "unknown") => ((e.res = "malformed") <=> (e.mal # 0))
+        (e.c = "exec" /\ e.res # "unknown") => /\ ((e.res = "malformed") <=> (e.mal # 0))
+                                                /\ ((e.res = "backend-error") <=> e.fault)
 
-(* a failed execution leaves nothing behind (state form; the history form is UsedMatchesHistory) *)
+(* a failed execution - refused packet or failure at the backend - leaves nothing behind   *)
+(* (state form; the history form is UsedMatchesHistory)                                     *)
 FailedLeavesUnset ==
-    (Len(hist) > 0 /\ hist[Len(hist)].c = "exec" /\ hist[Len(hist)].res = "malformed")
+    (Len(hist) > 0 /\ hist[Len(hist)].c = "exec" /\ hist[Len(hist)].res \in {"malformed", "backend-error"})
         => par[hist[Len(hist)].h] = AllUnset
 
 (* nothing is ever left bound between commands; closed handles hold nothing *)
